@@ -25,6 +25,7 @@ mod inputs;
 mod json;
 mod minimise;
 mod rng;
+mod scale;
 mod supervise;
 mod trace;
 
@@ -101,6 +102,11 @@ fn main() {
             fingerprints(&cfg, args[3].parse().unwrap_or(0), args[4].parse().unwrap_or(0))
         }
         Some("c11-thresholds") => c11::thresholds(),
+        Some("c01-scale-child") if args.len() >= 4 => scale::child(&args[1], args[2].parse().unwrap_or(0), &args[3]),
+        Some("c01-scale") => {
+            let tier = args.get(1).map_or("quick", String::as_str);
+            scale::run(&config("C01", tier)).0
+        }
         Some("c11-child") if args.len() >= 4 => c11::child(&args[1], args[2].parse().unwrap_or(0), &args[3]),
         _ => usage(),
     };
@@ -207,6 +213,9 @@ fn replay(path: &str, supervised: bool) -> i32 {
     };
     if case.prop == "C11" {
         return c11::replay(&case, path);
+    }
+    if case.prop == "C01" && case.gen == "scale" {
+        return scale::replay(&case, path);
     }
     if supervised {
         return supervise::replay(path, &case.prop);
